@@ -7,6 +7,7 @@ BASE = os.environ.get("SEED_BASE", "/tmp/seed")
 wt = "%s/%s" % (BASE, cid)
 out = "%s/%s-out" % (BASE, cid)
 run = open("%s/demo%s/RUN.md" % (out, n)).read()
+run = re.sub(r"\\\n\s*", " ", run)  # shell line continuations
 install, demo = [], None
 for ln in run.split("\n"):
     c = re.sub(r"\s+#.*$", "", ln.strip())
@@ -18,6 +19,11 @@ for ln in run.split("\n"):
                 if not parts[i].startswith(("/", "-", "$")) and os.path.exists(os.path.join(out, "demo%s" % n, parts[i])):
                     parts[i] = os.path.join(out, "demo%s" % n, parts[i])
             c = " ".join(parts)
+            # make sure the destination directory exists ("create tests/ if missing")
+            dest = parts[-1]
+            ddir = dest if dest.endswith("/") else os.path.dirname(dest)
+            if ddir:
+                install.append("mkdir -p %s" % ddir)
         install.append(c)
     elif re.search(r"(^|\s)cargo (test|run) ", c) and "--workspace" not in c and demo is None:
         demo = c[c.index("cargo "):]
